@@ -9,6 +9,8 @@ R14.2 TokenBuffer::add: on the edge `last_token_location < token.location.start`
       token.location.end on every path.
 R14.3 position completeness: every Location built for a token that covers input text sets all six position fields
       (start_line, start_column, end_line, end_column, start, end).
+R14.5 position mapping: in TokenIter::token_from_match each LocationBuilder setter receives the scnr2 match component of the
+      same meaning (start_line <- start_position.line, end_column <- end_position.column, start <- span.start, ...).
 R14.4 the end-of-input tokens are located at input.len(): a trailing unmatched gap is only visible to TokenBuffer::add
       because EOI starts at the end of the input.
 """
@@ -211,3 +213,22 @@ def check(ctx):
                         "into a gap token and disappears from tokens and tree" % (n.split("::")[-1], s), where(nx, c.line))
     ctx.check(eoi_ok == 2, "R14.4", "TokenIter::next|eoi-at-input-end", "EOI start and end are self.input.len()",
               "cannot establish that EOI is located at the end of the input (%d of 2 offsets)" % eoi_ok, where(nx))
+
+    # ---------------------------------------------------------------- R14.5
+    tfm = facts.body("parol_runtime::lexer::token_iter::TokenIter::token_from_match")
+    WANT = {"start_line": ("start_position", "line"), "start_column": ("start_position", "column"),
+            "end_line": ("end_position", "line"), "end_column": ("end_position", "column"),
+            "start": ("span", "start"), "end": ("span", "end")}
+    seen = {}
+    for c in tfm.calls():
+        p = c.path or ""
+        if p.startswith("parol_runtime::lexer::location::LocationBuilder::") and p.split("::")[-1] in WANT:
+            rp = raw_operand_place(tfm, c.args[1])
+            names = tuple(e[2] for e in (rp or [0])[1:] if isinstance(e, list) and e[0] == "f")
+            seen[p.split("::")[-1]] = names
+    for setter, want in WANT.items():
+        got = seen.get(setter, ())
+        ctx.check(tuple(got[-2:]) == want, "R14.5", "token_from_match|%s" % setter,
+                  "%s <- match.%s" % (setter, ".".join(want)),
+                  "LocationBuilder::%s is fed from match.%s instead of match.%s: token positions do not match the text"
+                  % (setter, ".".join(got), ".".join(want)), where(tfm))
